@@ -204,7 +204,7 @@ class BOWFunction(Function):
         now = datetime.datetime.fromtimestamp(context.timestamp)
         dt = now.replace(hour=12)  # using midday practically avoids problems due to DST
         if s > 0:
-            dt -= datetime.timedelta(days=dt.weekday() + 7 - s)
+            dt -= datetime.timedelta(days=(dt.weekday() - s) % 7)
         else:
             dt -= datetime.timedelta(days=dt.weekday())
 
